@@ -19,6 +19,7 @@ import (
 	"flag"
 	"os"
 	"runtime/pprof"
+	"time"
 
 	"github.com/sirupsen/logrus"
 
@@ -30,7 +31,7 @@ import (
 var (
 	workerDialect = flag.String("worker", "", "internal: run as the worker of this dialect")
 	outFile       = flag.String("out", "", "internal: worker result file")
-	onlyPhase     = flag.String("phase", "", "run only this phase (seed|grammar|splice|subst), for debugging")
+	onlyPhase     = flag.String("phase", "", "run only this phase (idents|observers|grammar|splice|subst; the seed statements always run), for debugging")
 )
 
 func main() {
@@ -53,6 +54,18 @@ func main() {
 	}
 
 	if *workerDialect != "" {
+		// this worker's wall budget: the -budget flag or the tier default of ev, a little less
+		// so that the result file is written in time
+		budget := 4 * time.Minute
+		if r.Thorough() {
+			budget = 40 * time.Minute
+		}
+		if b := flag.Lookup("budget"); b != nil {
+			if dur, err := time.ParseDuration(b.Value.String()); err == nil && dur > 0 {
+				budget = dur
+			}
+		}
+		workerDeadline = time.Now().Add(budget * 95 / 100)
 		sqlgen.Install(*workerDialect)
 		col := sqlgen.NewCollector()
 		if pf := os.Getenv("VERIF_CPUPROFILE"); pf != "" {
